@@ -140,7 +140,8 @@ Definition phase1 (g : graph) (c : cert) (nodes1 : list node) : graph :=
   mkGraph nodes1 (g_edges g ++ [mkEdge c iss nd false])
     (match iss with Some _ => g_missing g | None => g_missing g ++ [(c_iss c, c_fp c)] end)
     (match iss with Some p => g_children g ++ [(p, nd, c_fp c)] | None => g_children g end)
-    (match iss with Some p => g_parents g ++ [(nd, p, c_fp c)] | None => g_parents g end).
+    (match iss with Some p => g_parents g ++ [(nd, p, c_fp c)] | None => g_parents g end)
+    (g_roots g).
 
 Definition panic1 (g : graph) (c : cert) (nodes1 : list node) : bool :=
   let nd := node_of c in
@@ -294,7 +295,8 @@ Definition phase2 (g1 : graph) (nd : node) : graph :=
     (map (fun ce => if memN (e_fp ce) fixed then set_iss ce nd else ce) (g_edges g1))
     (filter (fun m => negb (N.eqb (fst m) (fst nd) && memN (snd m) fixed)) (g_missing g1))
     (g_children g1 ++ map (fun f => (nd, child_of (g_edges g1) f, f)) fixed)
-    (g_parents g1 ++ map (fun f => (child_of (g_edges g1) f, nd, f)) fixed).
+    (g_parents g1 ++ map (fun f => (child_of (g_edges g1) f, nd, f)) fixed)
+    (g_roots g1).
 
 Definition panic2 (g1 : graph) (nd : node) : bool :=
   let fixed := fixed_fps g1 nd in
@@ -716,6 +718,112 @@ Qed.
 
 Lemma ginv_history ops : GInv (state_after empty_graph ops).
 Proof. apply state_after_inv. apply GInv_empty. Qed.
+
+(* ------------------------------------------------------------------ rootEdges: the root certificates issued to each node *)
+Definition rview (e : edge) : node * N * bool := (e_child e, e_fp e, e_root e).
+Definition RInv (g : graph) : Prop :=
+  (forall n f, In (n, f) (g_roots g) <-> In (n, f, true) (map rview (g_edges g))) /\
+  NoDup (map snd (g_roots g)).
+
+Lemma RInv_empty : RInv empty_graph.
+Proof. split; simpl; [intros; tauto | constructor]. Qed.
+
+Lemma rviews_add_cert g c :
+  map rview (g_edges (fst (add_cert g c))) =
+  if has_fp (c_fp c) (g_edges g) then map rview (g_edges g)
+  else map rview (g_edges g) ++ [(node_of c, c_fp c, false)].
+Proof.
+  rewrite add_cert_split. destruct (has_fp (c_fp c) (g_edges g)); [reflexivity|].
+  destruct (mem_node (node_of c) (g_nodes g)); simpl.
+  - rewrite map_app. reflexivity.
+  - rewrite map_map. rewrite (map_ext _ rview).
+    + rewrite map_app. reflexivity.
+    + intros e. destruct (memN _ _); reflexivity.
+Qed.
+
+Lemma roots_add_cert g c : g_roots (fst (add_cert g c)) = g_roots g.
+Proof.
+  rewrite add_cert_split. destruct (has_fp (c_fp c) (g_edges g)); [reflexivity|].
+  destruct (mem_node (node_of c) (g_nodes g)); reflexivity.
+Qed.
+
+Lemma rinv_add_cert g c : RInv g -> RInv (fst (add_cert g c)).
+Proof.
+  intros [Hiff Hnd]. split; rewrite roots_add_cert; [|assumption].
+  intros n f. rewrite Hiff, rviews_add_cert. destruct (has_fp (c_fp c) (g_edges g)); [tauto|].
+  rewrite in_app_iff. split; [now left|]. intros [H | [H | []]]; [assumption | discriminate].
+Qed.
+
+Lemma rt_eqb_eq a b : rt_eqb a b = true <-> a = b.
+Proof.
+  destruct a as [a1 a2], b as [b1 b2]. unfold rt_eqb; simpl.
+  rewrite andb_true_iff, node_eqb_eq, N.eqb_eq. split; [intros [-> ->]; reflexivity | intros E; inversion E; auto].
+Qed.
+
+Lemma rinv_add_root g c : GInv g -> RInv g -> RInv (fst (add_root g c)).
+Proof.
+  intros G R. pose proof (add_cert_inv g c G) as [G1 _]. pose proof (rinv_add_cert g c R) as [Hiff Hnd].
+  pose proof (add_cert_has_fp g c) as Hh.
+  unfold add_root. destruct (add_cert g c) as [g1 p]. simpl in *.
+  apply has_fp_true in Hh. apply in_map_iff in Hh as [ef [Eff Hef]].
+  assert (Hfps : NoDup (map e_fp (g_edges g1))) by (rewrite <- map_vfp_views; apply (i_fps g1 G1)).
+  assert (Hchild : child_of (g_edges g1) (c_fp c) = e_child ef).
+  { unfold child_of. rewrite <- Eff. now rewrite (find_edge_nodup _ _ Hfps Hef). }
+  assert (Huniq : forall e, In e (g_edges g1) -> e_fp e = c_fp c -> e = ef).
+  { intros e He Ee. assert (X : find_edge (e_fp e) (g_edges g1) = Some e) by now apply find_edge_nodup.
+    rewrite Ee, <- Eff, (find_edge_nodup _ _ Hfps Hef) in X. congruence. }
+  rewrite Hchild. set (entry := (e_child ef, c_fp c)).
+  assert (Hmark : forall n f, In (n, f, true) (map rview (map (fun e => if N.eqb (e_fp e) (c_fp c) then set_root e else e) (g_edges g1)))
+                  <-> In (n, f) (g_roots g1) \/ (n, f) = entry).
+  { intros n f. rewrite map_map, in_map_iff. split.
+    - intros [e [Ev He]]. destruct (N.eqb (e_fp e) (c_fp c)) eqn:Ee.
+      + apply N.eqb_eq in Ee. right. rewrite (Huniq e He Ee) in Ev. unfold rview in Ev. simpl in Ev.
+        inversion Ev; subst. unfold entry. f_equal. exact Eff.
+      + left. apply Hiff. apply in_map_iff. now exists e.
+    - intros [H | H].
+      + apply Hiff in H. apply in_map_iff in H as [e [Ev He]]. exists e. split; [|assumption].
+        destruct (N.eqb (e_fp e) (c_fp c)); [|assumption]. unfold rview in *. simpl in *. inversion Ev; subst. reflexivity.
+      + exists ef. split; [|assumption]. rewrite Eff, N.eqb_refl. unfold rview, entry in *. simpl. inversion H; subst.
+        f_equal. f_equal. exact Eff. }
+  destruct (existsb (rt_eqb entry) (g_roots g1)) eqn:Ex; cbv iota; unfold RInv; cbn [fst g_roots g_edges]; split.
+  - intros n f. rewrite Hmark. split; [now left|]. intros [H | H]; [assumption|].
+    apply existsb_exists in Ex as [y [Hy Ey]]. apply rt_eqb_eq in Ey. subst y. now rewrite H.
+  - assumption.
+  - intros n f. rewrite Hmark, in_app_iff. simpl. split.
+    + intros [H | [H | []]]; [now left | right; now symmetry].
+    + intros [H | H]; [now left | right; left; now symmetry].
+  - rewrite map_app. simpl. apply NoDup_snoc; [assumption|].
+    intros Hin. apply in_map_iff in Hin as [[n' f'] [Ef' Hin]]. simpl in Ef'. subst f'.
+    assert (X : In (n', c_fp c, true) (map rview (g_edges g1))) by now apply Hiff.
+    apply in_map_iff in X as [e [Ev He]]. unfold rview in Ev. inversion Ev as [[E1 E2 E3]].
+    rewrite (Huniq e He E2) in E1. subst n'.
+    assert (Y : existsb (rt_eqb entry) (g_roots g1) = true).
+    { apply existsb_exists. exists entry. split; [exact Hin | now apply rt_eqb_eq]. }
+    congruence.
+Qed.
+
+Lemma rinv_step g o : GInv g -> RInv g -> RInv (fst (step g o)).
+Proof. destruct o; simpl; intros G R; [now apply rinv_add_cert | now apply rinv_add_root]. Qed.
+
+Lemma rinv_state_after ops : forall g, GInv g -> RInv g -> RInv (state_after g ops).
+Proof.
+  induction ops as [|o ops IH]; intros g G R; simpl; [assumption|].
+  apply IH; [apply (step_inv g o G) | now apply rinv_step].
+Qed.
+
+Lemma rinv_history ops : RInv (state_after empty_graph ops).
+Proof. apply rinv_state_after; [apply GInv_empty | apply RInv_empty]. Qed.
+
+(* rootEdges = the root edges, under their child node *)
+Lemma rinv_roots_exact g : RInv g ->
+  NoDup (g_roots g) /\
+  forall n f, In (n, f) (g_roots g) <-> exists e, In e (g_edges g) /\ e_root e = true /\ e_child e = n /\ e_fp e = f.
+Proof.
+  intros [Hiff Hnd]. split; [now apply NoDup_map_snd_NoDup|].
+  intros n f. rewrite Hiff, in_map_iff. split.
+  - intros [e [Ev He]]. unfold rview in Ev. inversion Ev; subst. now exists e.
+  - intros [e [He [Hr [Hc Hf]]]]. exists e. split; [|assumption]. unfold rview. now rewrite Hr, Hc, Hf.
+Qed.
 
 (* ------------------------------------------------------------------ statements on edges *)
 Lemma in_views g e : In e (g_edges g) -> In (eview e) (views g).
